@@ -354,6 +354,14 @@ class C01(Prop):
                 for agg in ('appendExtend', 'tupMut', 'nestMut'):
                     out.append({'xs': xs, 'n': n, 'ops': [], 'action': {'name': 'aggregate', 'agg': agg}})
                 out.append({'xs': xs, 'n': n, 'ops': [{'op': 'filter', 'f': 'false'}], 'action': {'name': 'reduce', 'f': 'add'}})
+        # slice counts at which a hoisted quotient rounds: n * (len / n) < len in IEEE doubles (49 * (1 / 49) = 0.99999…), so that
+        # boundaries computed as int(i * (len / n)) lose the last element - the first such n for each small length (four seeded
+        # changes of this kind were reported by C07's exhaustive sweep for every seed, by this campaign only for some)
+        for ln in (1, 2, 3, 5, 6, 7, 10, 11, 13, 15):
+            hostile = [n for n in range(1, 130) if n * (ln / n) < ln][:2]
+            for n in hostile:
+                out.append({'xs': list(range(ln)), 'n': n, 'ops': [], 'action': {'name': 'collect'}})
+                out.append({'xs': list(range(ln)), 'n': n, 'ops': [], 'action': {'name': 'count'}})
         # re-partitioning after a size-changing step, also to the partition count the dataset already has: the layout
         # seen by glom / the partition-wise steps is the even re-split, not the old uneven contents
         for ln in (4, 6, 7):
